@@ -148,13 +148,20 @@ func (w *worker) exec1(job *proto.Job, timeout time.Duration) (*proto.Result, er
 	}()
 	t := time.NewTimer(timeout)
 	defer t.Stop()
+	t0 := time.Now()
 	select {
 	case r := <-ch:
+		if d := time.Since(t0); slowLog && d > 5*time.Second {
+			fmt.Fprintf(os.Stderr, "SLOW job %s took %.1fs (%d bytes of job)\n", job.ID, d.Seconds(), len(data))
+		}
 		return r.res, r.err, false
 	case <-t.C:
 		return nil, nil, true
 	}
 }
+
+// slowLog (development aid, VERIF_SLOW=1): report jobs that take longer than 5 s on stderr.
+var slowLog = os.Getenv("VERIF_SLOW") == "1"
 
 var reFrame = regexp.MustCompile(`(?m)^(github\.com/jsightapi/[^\s(]+)\(`)
 
